@@ -11,7 +11,7 @@ use std::panic::{catch_unwind, AssertUnwindSafe};
 use std::rc::Rc;
 use suiron::*;
 
-pub fn props_of(_case: &Value) -> Vec<&'static str> { vec!["C10"] }
+pub fn props_of(_case: &Value) -> Vec<&'static str> { vec!["C10", "C22"] }
 
 pub fn replay(case: &Value) -> Vec<Obs> {
     let kb = build_kb(&case["prog"]);
@@ -24,7 +24,7 @@ pub fn replay(case: &Value) -> Vec<Obs> {
     fn nvars(t: &Tm) -> usize { let mut v = vec![]; fn go(t: &Tm, v: &mut Vec<String>) { match t { Tm::Var(_, n) => if !v.contains(n) { v.push(n.clone()) }, Tm::Cx(_, a) | Tm::Fn(_, a) => a.iter().for_each(|x| go(x, v)), Tm::List(a, tl) => { a.iter().for_each(|x| go(x, v)); if let Some(t) = tl { go(t, v) } } _ => {} } } go(t, &mut v); v.len() }
     let kind = if nvars(&tb) < nvars(&ta) { "later-query-has-fewer-variables" } else { "two-live-searches" };
     let mut obs = vec![];
-    for ctor in ["make_query", "parse_query"] {
+    for (ctor, mode) in [("make_query", "next_solution"), ("parse_query", "next_solution"), ("parse_query", "solve")] {
         start_query();
         let mk = |t: &Tm| -> Option<Goal> {
             if ctor == "make_query" { match build(t) { Unifiable::SComplex(v) => Some(make_query(v)), _ => None } }
@@ -40,6 +40,24 @@ pub fn replay(case: &Value) -> Vec<Obs> {
         capture::take();
         for who in &sched {
             let (sn, args, got) = if who == "A" { (&sa, &aa, &mut ga) } else { (&sb, &ab, &mut gb) };
+            if mode == "solve" {
+                // the way main.rs asks: solve() on the node; the reply is text
+                let (qt, exp) = if who == "A" { (&ta, &ea) } else { (&tb, &eb) };
+                let r = catch_unwind(AssertUnwindSafe(|| solve(Rc::clone(sn))));
+                let out = capture::take();
+                let k = got.len();
+                match r {
+                    Ok(text) => {
+                        // (kept in the same shape as the expectation when the text is the expected one)
+                        if k < exp.len() && exp[k].some && text == crate::session::answer_text(qt, &exp[k].ans) { got.push(Seg { out, some: true, ans: exp[k].ans.clone() }); }
+                        else if text == "No more." { got.push(Seg { out, some: false, ans: vec![] }); }
+                        else { got.push(Seg { out, some: true, ans: vec![Tm::Atom(format!("solve() said {:?}", text))] }); }
+                    }
+                    Err(_) => { panicked = true; break; }
+                }
+                let _ = args;
+                continue;
+            }
             let r = catch_unwind(AssertUnwindSafe(|| next_solution(Rc::clone(sn)).map(|s| (*s).clone())));
             let out = capture::take();
             match r {
@@ -48,10 +66,20 @@ pub fn replay(case: &Value) -> Vec<Obs> {
                 Err(_) => { panicked = true; break; }
             }
         }
-        if !panicked && ga == ea && gb == eb { obs.push(Obs::ok("C10", kind)); }
+        if !panicked && ga == ea && gb == eb {
+            obs.push(Obs::ok("C10", kind));
+            if kind == "two-live-searches" { obs.push(Obs::ok("C22", "two-live-queries")); }
+        }
         else {
+            // C22: what a query answers does not depend on what was asked of OTHER queries in between (re-asks of an
+            // exhausted one included); the histories of the recorded finding are C10's alone
+            if kind == "two-live-searches" {
+                obs.push(Obs::bad("C22", "two-live-queries", format!("{} :: {} ?- {} (A) and ?- {} (B), requests {} :: reference A {} B {} / engine A {} B {}",
+                    show_prog(&case["prog"]), format!("{} + {}", ctor, mode), show(&ta).replace("_0", ""), show(&tb).replace("_0", ""), sched.join(""),
+                    show_segs(&ea), show_segs(&eb), show_segs(&ga), show_segs(&gb))));
+            }
             obs.push(Obs::bad("C10", kind, format!("{} :: {} ?- {} (A) and ?- {} (B), requests {} :: reference A {} B {} / engine A {} B {}{}",
-                show_prog(&case["prog"]), ctor, show(&ta).replace("_0", ""), show(&tb).replace("_0", ""), sched.join(""),
+                show_prog(&case["prog"]), format!("{} + {}", ctor, mode), show(&ta).replace("_0", ""), show(&tb).replace("_0", ""), sched.join(""),
                 show_segs(&ea), show_segs(&eb), show_segs(&ga), show_segs(&gb), if panicked { " PANIC" } else { "" })));
             break;
         }
